@@ -20,7 +20,7 @@ define: VP=str, U_INIT_FROM_PTR
 src: str.c, obj.c
 enforce: spif_str_init_from_ptr
 backend: sat
-timeout: 150
+timeout: 200
 */
 /*@unit
 name: ustr_init_from_ptr
@@ -28,7 +28,7 @@ define: VP=ustr, U_INIT_FROM_PTR
 src: ustr.c, obj.c
 enforce: spif_ustr_init_from_ptr
 backend: sat
-timeout: 150
+timeout: 200
 */
 /*@unit
 name: str_init_from_buff
@@ -36,7 +36,7 @@ define: VP=str, U_INIT_FROM_BUFF
 src: str.c, obj.c
 enforce: spif_str_init_from_buff
 backend: sat
-timeout: 150
+timeout: 200
 */
 /*@unit
 name: ustr_init_from_buff
@@ -44,39 +44,39 @@ define: VP=ustr, U_INIT_FROM_BUFF
 src: ustr.c, obj.c
 enforce: spif_ustr_init_from_buff
 backend: sat
-timeout: 150
+timeout: 200
 */
 /*@unit
 name: str_init_from_buff.negsize
 define: VP=str, U_INIT_FROM_BUFF_NEG
 src: str.c, obj.c
 enforce: spif_str_init_from_buff
-backend: z3,sat
-timeout: 150
+backend: sat,z3
+timeout: 200
 */
 /*@unit
 name: ustr_init_from_buff.negsize
 define: VP=ustr, U_INIT_FROM_BUFF_NEG
 src: ustr.c, obj.c
 enforce: spif_ustr_init_from_buff
-backend: z3,sat
-timeout: 150
+backend: sat,z3
+timeout: 200
 */
 /*@unit
 name: str_init_from_num
 define: VP=str, U_INIT_FROM_NUM
 src: str.c, obj.c
 enforce: spif_str_init_from_num
-backend: z3,sat
-timeout: 150
+backend: sat,z3
+timeout: 200
 */
 /*@unit
 name: ustr_init_from_num
 define: VP=ustr, U_INIT_FROM_NUM
 src: ustr.c, obj.c
 enforce: spif_ustr_init_from_num
-backend: z3,sat
-timeout: 150
+backend: sat,z3
+timeout: 200
 */
 #include "str.h"
 
